@@ -72,6 +72,12 @@ class G(object):
             s = self.rng.choice(['', '', ' ', '\n', '\t ']) + s + self.rng.choice(['', '', ' ', '\n  '])
         return s
 
+    def int_tok(self, x):
+        """an index as text: plain, or (odd formats) with a sign or a leading zero"""
+        if self.odd_ws and x >= 0 and self.rng.random() < 0.08:
+            return self.rng.choice(['+%d', '0%d', '00%d']) % x
+        return str(x)
+
     def num(self, pos=False):
         return self.rng.choice(POS_TOKENS if pos else NUM_TOKENS)
 
@@ -282,9 +288,9 @@ def render_geometry(g, geom):
                       for o, sem, ref, st in p['inputs'])
         body = ins
         if p['vcount'] is not None:
-            body += g.el('vcount', [], g.join([str(x) for x in p['vcount']]))
+            body += g.el('vcount', [], g.join([g.int_tok(x) for x in p['vcount']]))
         for rowsv in p['ps']:
-            body += g.el('p', [], None if rowsv is None else g.join([str(x) for x in rowsv]))
+            body += g.el('p', [], None if rowsv is None else g.join([g.int_tok(x) for x in rowsv]))
         body += g.maybe_extra(0.08)
         parts.append(g.el(p['tag'], [('material', p['material']), ('count', str(p['count_attr']))], body))
     if g.chance(0.15):
@@ -714,26 +720,46 @@ def gen_document(rng, size=1, ns=NS_141, **opts):
     D['scene'] = rng.choice(D['scenes'])['id'] if D['scenes'] and g.chance(0.85) else None
 
     # ---- render
-    libs = []
+    libs = []          # (text, key, part): a library may be written as two elements of the same name
+    split = {}
 
-    def lib(name, items):
-        if items or g.chance(0.15):
-            libs.append(g.el(name, [], ''.join(items) + g.maybe_extra(0.1)))
-    lib('library_images', [render_image(g, x) for x in D['images']])
-    lib('library_effects', [render_effect(g, x) for x in D['effects']])
+    def lib(name, items, key=None):
+        if key is not None and len(items) >= 2 and g.chance(0.25):
+            cut = rng.randint(1, len(items) - 1)
+            split[key] = cut
+            libs.append((g.el(name, [], ''.join(items[:cut]) + g.maybe_extra(0.1)), key, 0))
+            libs.append((g.el(name, [], ''.join(items[cut:])), key, 1))
+        elif items or g.chance(0.15):
+            libs.append((g.el(name, [], ''.join(items) + g.maybe_extra(0.1)), key, 0))
+    lib('library_images', [render_image(g, x) for x in D['images']], 'images')
+    lib('library_effects', [render_effect(g, x) for x in D['effects']], 'effects')
     lib('library_materials', [g.el('material', [('id', m['id']), ('name', m['name'])],
-                                   g.el('instance_effect', [('url', '#' + m['effect'])])) for m in D['materials']])
-    lib('library_animations', [render_animation(g, x) for x in D['animations']])
-    lib('library_geometries', [render_geometry(g, x) for x in D['geometries']])
-    lib('library_controllers', [render_skin(g, x) if x['kind'] == 'skin' else render_morph(g, x) for x in D['controllers']])
-    lib('library_lights', [render_light(g, x) for x in D['lights']])
-    lib('library_cameras', [render_camera(g, x) for x in D['cameras']])
+                                   g.el('instance_effect', [('url', '#' + m['effect'])])) for m in D['materials']], 'materials')
+    lib('library_animations', [render_animation(g, x) for x in D['animations']], 'animations')
+    geoms_xml = [render_geometry(g, x) for x in D['geometries']]
+    if g.chance(0.12):
+        # a geometry that is not a mesh is skipped by the loader (and is not in the description)
+        geoms_xml.insert(rng.randint(0, len(geoms_xml)),
+                         g.el('geometry', [('id', g.fid('spline'))],
+                              g.el('spline', [], g.el('control_vertices', [], None))))
+        lib('library_geometries', geoms_xml)
+    else:
+        lib('library_geometries', geoms_xml, 'geometries')
+    lib('library_controllers', [render_skin(g, x) if x['kind'] == 'skin' else render_morph(g, x) for x in D['controllers']], 'controllers')
+    lib('library_lights', [render_light(g, x) for x in D['lights']], 'lights')
+    lib('library_cameras', [render_camera(g, x) for x in D['cameras']], 'cameras')
     lib('library_nodes', [render_node(g, x) for x in D['nodes']])
     lib('library_visual_scenes', [g.el('visual_scene', [('id', s['id']), ('name', s['name'])],
-                                       ''.join(render_node(g, n) for n in s['nodes']) + g.maybe_extra(0.1)) for s in D['scenes']])
+                                       ''.join(render_node(g, n) for n in s['nodes']) + g.maybe_extra(0.1)) for s in D['scenes']], 'scenes')
     if g.chance(0.5):
         rng.shuffle(libs)      # the order of libraries in the file is free
-    body = (render_asset(g, D['asset']) if D['asset'] is not None else '') + ''.join(libs)
+    # a library written in two parts lists its objects in the order of the parts in the file
+    for key, cut in split.items():
+        order = [part for (_t, k, part) in libs if k == key]
+        if order == [1, 0]:
+            D[key] = D[key][cut:] + D[key][:cut]
+    D['split_libraries'] = sorted(split)
+    body = (render_asset(g, D['asset']) if D['asset'] is not None else '') + ''.join(t for (t, _k, _p) in libs)
     if D['scene'] is not None:
         body += g.el('scene', [], g.el('instance_visual_scene', [('url', '#' + D['scene'])]))
     elif g.chance(0.3):
